@@ -502,6 +502,14 @@ func (a *A) ruleTrailingWildcards(fn *ssa.Function) {
 				if !ok {
 					continue
 				}
+				// `for i := range rest` over a string: the loop ends when the iterator runs out
+				if ex, isEx := iff.Cond.(*ssa.Extract); isEx && ex.Index == 0 {
+					if nx, isNx := ex.Tuple.(*ssa.Next); isNx && nx.IsString {
+						if rg, isRg := nx.Iter.(*ssa.Range); isRg && isPat(rg.X) && !li.Blocks[b.Succs[1]] && endsIn(b.Succs[1], true) {
+							exhaustedTrue = true
+						}
+					}
+				}
 				bo, ok := iff.Cond.(*ssa.BinOp)
 				if !ok {
 					continue
@@ -546,6 +554,22 @@ func (a *A) ruleTrailingWildcards(fn *ssa.Function) {
 			}
 			for _, l := range phiLeaves(ret.Results[0]) {
 				if bo, ok := l.(*ssa.BinOp); ok && bo.Op == token.EQL {
+					// `strings.Count(rest, "%") == len(rest)`: every byte of the rest is '%'
+					for i, side := range []ssa.Value{bo.X, bo.Y} {
+						other := []ssa.Value{bo.Y, bo.X}[i]
+						cnt, isCall := side.(*ssa.Call)
+						if !isCall || calleeFull(&cnt.Call) != "strings.Count" || len(cnt.Call.Args) != 2 || !isPat(cnt.Call.Args[0]) {
+							continue
+						}
+						if k, isK := cnt.Call.Args[1].(*ssa.Const); !isK || k.Value == nil || k.Value.Kind() != constant.String || constant.StringVal(k.Value) != "%" {
+							continue
+						}
+						if lc, isLen := other.(*ssa.Call); isLen {
+							if cc, ok := isBuiltinCall(lc, "len"); ok && cc.Args[0] == cnt.Call.Args[0] {
+								skip, accept = true, true
+							}
+						}
+					}
 					for i, side := range []ssa.Value{bo.X, bo.Y} {
 						other := []ssa.Value{bo.Y, bo.X}[i]
 						if c, ok := side.(*ssa.Call); ok {
